@@ -14,6 +14,9 @@ import Driver.C06
 import Driver.C20
 import Driver.C09
 import Driver.C10
+import Driver.C13
+import Driver.C15
+import Driver.C16
 
 open Driver
 
@@ -30,6 +33,9 @@ def dispatch (prop : String) (toks : List String) : String :=
   | "C20" => Driver.C20.handle toks
   | "C09" => Driver.C09.handle toks
   | "C10" => Driver.C10.handle toks
+  | "C13" => Driver.C13.handle toks
+  | "C15" => Driver.C15.handle toks
+  | "C16" => Driver.C16.handle toks
   | _ => "bad-prop"
 
 partial def loop (hin hout : IO.FS.Stream) : IO Unit := do
